@@ -143,6 +143,51 @@ func c14Active(c *core.Ctx) {
 			}
 		}
 	}
+	if !c.Failed() && t.Bias(1, 3, "oversized-inbound") {
+		// a frame longer than the receive MTU arrives (lengths around the limit, around twice the limit, the
+		// largest the header can say), followed by an ordinary one: the stream ends for the reader - no part of
+		// the oversized frame and nothing after it is delivered as a packet - and what the connection sends
+		// meanwhile is still the exact encoding of what WriteTo accepted
+		big := []int{8193, 8194, 9192, 16383, 16384, 16385, 65535}[t.Choose(7, "biglen")]
+		c.Fault("inbound-frame-larger-than-receive-mtu")
+		mu.Lock()
+		before := len(evs)
+		mu.Unlock()
+		_, _ = peer.Write(tsEnc(tsPayload(salt+2, 0, big)))
+		synctest.Wait()
+		nOut := t.Range(0, 2, "writes-after")
+		for i := 0; i < nOut; i++ {
+			p := tsPayload(salt+3, i, lens[t.Choose(len(lens), "len")])
+			if n, err := pc.WriteTo(p, net.TCPAddrFromAddrPort(remote)); err == nil && n == len(p) {
+				out = append(out, p)
+			}
+			synctest.Wait()
+		}
+		_, _ = peer.Write(tsEnc(tsPayload(salt+4, 0, 100)))
+		time.Sleep(10 * time.Millisecond)
+		synctest.Wait()
+		mu.Lock()
+		got := append([]ev(nil), evs[before:]...)
+		mu.Unlock()
+		for _, e := range got {
+			if len(e.data) > 0 || e.err == nil {
+				c.Failf("C14/active-oversized-frame-delivered", "a %d-byte frame (receive MTU 8192) was framed towards the connection; afterwards ReadFrom returned %d bytes err=%v (%d further results): the frame was not refused / the stream not ended",
+					big, len(e.data), e.err, len(got))
+				return
+			}
+		}
+		wire := peer.Buffered()
+		var want []byte
+		for _, p := range out {
+			want = append(want, tsEnc(p)...)
+		}
+		if !bytes.HasPrefix(want, wire) {
+			c.Failf("C14/active-wire-differs", "after an oversized inbound frame (%d bytes) the peer sees %d bytes that are not the RFC 4571 encoding of what WriteTo accepted (%d bytes); first difference at byte %d",
+				big, len(wire), len(want), c14FirstDiff(wire, want))
+			return
+		}
+		c.Probe("oversized-inbound-frame-refused")
+	}
 	cs.flush(c)
 	c.MarkNontrivial()
 }
